@@ -14,6 +14,9 @@ names, local variable names or one loop idiom:
           ones, in any of its spellings) is non-empty, and the test dominates the return.
   C11.R3  view of Rule.have_name_containing: the list stored into the rule's state is
           {ModuleNameRegexFilter(name=convert_partial_match_to_regex(n)) | n in names}, unfiltered, stored on every path.
+  C11.R5  the ImpossibleMatch raised by the conversion reaches the caller of Rule.assert_applies: no `except` clause (by class, base
+          class or bare), `contextlib.suppress` or returning `finally` around the conversion (in the matcher view) or around the
+          matcher call (in the view of Rule.assert_applies) keeps it from propagating as an error.
   C11.R4  views of the three public queries of EvaluableArchitecture: the result has one entry per element of the given collections
           (no filter), each value is a graph search over (graph, own key, whole given collections) only, nothing is carried from one
           key to the next, every entry is stored under its own key unconditionally.
@@ -186,6 +189,7 @@ def _entry_points(repo: Repo) -> tuple[list[FuncInfo], bool, str]:
         return creates_matcher(e)
 
     entries: list[FuncInfo] = []
+    matcher_calls: list[ast.Call] = []
     fresh, why = True, ""
     found = False
     for c in own_nodes(view.node):
@@ -200,6 +204,7 @@ def _entry_points(repo: Repo) -> tuple[list[FuncInfo], bool, str]:
         if not impls:
             continue
         found = True
+        matcher_calls.append(c)
         for f in impls:
             if f not in entries:
                 entries.append(f)
@@ -214,6 +219,7 @@ def _entry_points(repo: Repo) -> tuple[list[FuncInfo], bool, str]:
         raise AnalysisError("Rule.assert_applies: the call that runs the rule matcher on the evaluable was not found")
     if fresh and stale:
         fresh, why = False, stale[0]
+    repo.__dict__["_c11_matcher_calls"] = (view, matcher_calls)
     return entries, fresh, why
 
 
@@ -559,6 +565,10 @@ def run_r1(repo: Repo, res: Result) -> None:
         # ---- (1) the conversion runs on every evaluation, before any query, against the evaluable being queried
         problems: list[tuple[str, ast.AST, bool]] = []  # (text, node, depends on matcher state)
         if not convs:
+            hidden = [g for g in reachable_funcs(repo, [entry], byname=True) if g.fq == CONVERT_FQ]
+            if hidden:
+                res.undecide("C11.R1", base + "conversion dominates evaluation", "ModuleNameConverter.convert is reachable from the matcher entry point, but not through calls that the inlined view shows (a wrapper the view could not take apart)", where(view, view.node))
+                continue
             problems.append(("the regex filters are never converted to module names before the graph is queried", queries[0], True))
         for c in convs:
             if id(c) in split_convs:
@@ -774,6 +784,191 @@ def run_r1(repo: Repo, res: Result) -> None:
             if _query_site(x) and id(x) not in judged_sites:
                 res.undecide("C11.R1", repo.key(g, stmt_of(x)) + " [graph query outside the view]", f"{g.qualname} queries the graph (`{norm(x, 70)}`) but the call is not part of the inlined view of the matcher entry point: its arguments cannot be traced to the conversion", where(g, x))
     res_.floor("C11.R1", 1, nq)  # at least one graph query was found and judged (a view without queries is an ANALYSIS-ERROR above)
+
+
+# --------------------------------------------------------------------------------------------------------------- C11.R5
+
+NO_MATCH = ("pytestarch.eval_structure.exceptions", "ImpossibleMatch")
+
+
+def _swallowed(repo: Repo, fn: Fn, call: ast.AST) -> tuple[ast.AST, str] | None:
+    """The construct between `call` and the caller of the analysed function that keeps an ImpossibleMatch raised inside `call`
+    from propagating as an error: an `except` clause that catches it (by class, by a base class, bare) and does not end in a
+    `raise` of an error on every path, a `contextlib.suppress`, a `finally` that returns.  None if there is none."""
+    try:
+        nm = repo.cls(*NO_MATCH)
+        bases = {c.fq for c in repo.mro(nm)}
+    except Exception:  # noqa: BLE001
+        nm, bases = None, set()
+
+    def catches(t: ast.AST | None) -> bool:
+        if t is None:
+            return True
+        for x in (t.elts if isinstance(t, ast.Tuple) else [t]):
+            last = dotted(x).split(".")[-1] if dotted(x) else ""
+            if last in ("Exception", "BaseException", "ImpossibleMatch"):
+                return True
+            ty = fn.type_of(x)
+            if any(m[0] == "type" and m[1] in bases for m in _members(ty)):
+                return True
+        return False
+
+    def verdict_class(exc: ast.AST | None, handler_name: str | None) -> bool:
+        """Does `raise exc` report a verdict (AssertionError) instead of an error?"""
+        if exc is None or (isinstance(exc, ast.Name) and exc.id == handler_name):
+            return False
+        head = exc.func if isinstance(exc, ast.Call) else exc
+        return dotted(head).split(".")[-1] == "AssertionError"
+
+    def ends_in_error(body: list[ast.stmt], handler_name: str | None) -> bool:
+        if not body:
+            return False
+        last = body[-1]
+        if isinstance(last, ast.Raise):
+            return not verdict_class(last.exc, handler_name)
+        if isinstance(last, ast.If):
+            return ends_in_error(last.body, handler_name) and ends_in_error(last.orelse, handler_name)
+        if isinstance(last, (ast.With, ast.AsyncWith)):
+            return ends_in_error(last.body, handler_name)
+        return False
+
+    cur: ast.AST = call
+    for a in ancestors(call):
+        if isinstance(a, (ast.FunctionDef, ast.AsyncFunctionDef, ast.Lambda)):
+            break
+        if isinstance(a, ast.Try):
+            in_body = any(cur is x for x in a.body)
+            if in_body:
+                for h in a.handlers:
+                    if catches(h.type) and not ends_in_error(h.body, h.name):
+                        turned = bool(h.body) and isinstance(h.body[-1], ast.Raise) and verdict_class(h.body[-1].exc, h.name)
+                        return h, f"`except {norm(h.type, 50) if h.type is not None else ''}`".replace("except `", "except`") + (" turns it into an AssertionError, the report of a violated rule" if turned else " catches it and goes on")
+            if (in_body or any(cur is x for h in a.handlers for x in h.body) or any(cur is x for x in a.orelse)) and any(isinstance(x, ast.Return) for st in a.finalbody for x in ast.walk(st)):
+                return a, "a `finally` block returns, which discards it"
+        if isinstance(a, (ast.With, ast.AsyncWith)) and any(cur is x for x in a.body):
+            for it in a.items:
+                ce = it.context_expr
+                if isinstance(ce, ast.Call) and (fn.lib_name(ce.func) in ("contextlib.suppress", "suppress") or dotted(ce.func).split(".")[-1] == "suppress") and any(catches(x) for x in ce.args):
+                    return a, f"`{norm(ce, 50)}` suppresses it"
+        cur = a
+    return None
+
+
+def _error_as_value(repo: Repo, g: FuncInfo, handler: ast.ExceptHandler, callers: list[tuple[FuncInfo, ast.Call]]):
+    """`except ImpossibleMatch as e: return <.., description>` / `return <.., None>`: the failure is handed to the callers as a value
+    (a position of the returned tuple that is None on success only).  True if every caller raises an error (not a verdict)
+    whenever it receives such a value, (False, why) if one provably does not, None if the idiom is not recognised."""
+    from core.guards import atoms_of, f_and, f_not, implies as implies_f
+    from .common import truth
+
+    def tuple_of(r: ast.Return):
+        v = r.value
+        return list(v.elts) if isinstance(v, ast.Tuple) else None
+
+    in_handlers = {id(x) for t in ast.walk(g.node) if isinstance(t, ast.Try) for h in t.handlers for st in h.body for x in ast.walk(st)}
+    h_rets = [r for st in handler.body for r in ast.walk(st) if isinstance(r, ast.Return)]
+    n_rets = [r for r in own_nodes(g.node) if isinstance(r, ast.Return) and id(r) not in in_handlers]
+    if len(h_rets) != 1 or not n_rets or h_rets[0].value is None:
+        return None
+    th = tuple_of(h_rets[0])
+    tns = [tuple_of(r) for r in n_rets]
+    if th is None or any(t is None or len(t) != len(th) for t in tns):
+        return None
+    is_none = lambda e: isinstance(e, ast.Constant) and e.value is None  # noqa: E731
+    idx = [i for i in range(len(th)) if all(is_none(t[i]) for t in tns) and not is_none(th[i])]
+    if len(idx) != 1 or not callers:
+        return None
+    i = idx[0]
+    for h, call in callers:
+        st = stmt_of(call)
+        if not (isinstance(st, ast.Assign) and st.value is call and len(st.targets) == 1 and isinstance(st.targets[0], ast.Tuple) and len(st.targets[0].elts) == len(th)):
+            return None
+        mk = st.targets[0].elts[i]
+        if not (isinstance(mk, ast.Name) or (isinstance(mk, ast.Attribute) and isinstance(mk.value, ast.Name))):
+            return None
+        prem = f_and([truth(h, norm(mk)), f_not(truth(h, f"{norm(mk)} is None"))])
+        markers: set[str] = set()
+        for h2, c2 in callers:
+            if h2 is h:
+                s2 = stmt_of(c2)
+                if isinstance(s2, ast.Assign) and isinstance(s2.targets[0], ast.Tuple) and len(s2.targets[0].elts) == len(th):
+                    m2 = norm(s2.targets[0].elts[i])
+                    markers |= atoms_of(truth(h, m2)) | atoms_of(truth(h, f"{m2} is None"))
+        raises = [r for r in own_nodes(h.node) if isinstance(r, ast.Raise) and r.exc is not None and getattr(r, "lineno", 0) > getattr(st, "lineno", 0) and dotted(r.exc.func if isinstance(r.exc, ast.Call) else r.exc).split(".")[-1] != "AssertionError"]
+        if not raises:
+            return False, f"{h.qualname} receives the failure of `{norm(call, 50)}` in `{norm(mk)}` and never raises an error for it"
+        guards = [guard_formula(h, r) for r in raises]
+        if any(implies_f(prem, gd) for gd in guards):
+            continue
+        if all(atoms_of(gd) <= markers for gd in guards):
+            from core.guards import show as show_formula
+
+            return False, f"{h.qualname} receives the failure of `{norm(call, 50)}` in `{norm(mk)}` but raises only if `{show_formula(guards[0])}`"
+        return None
+    return True
+
+
+def run_r5(repo: Repo, res: Result) -> None:
+    """'raises a no-match error (never a verdict) when nothing matches': the ImpossibleMatch raised by the conversion reaches the
+    caller of Rule.assert_applies - in no function on a call path from Rule.assert_applies to ModuleNameConverter.convert does the
+    call that leads on to the conversion sit under a construct that catches the error and goes on to a verdict."""
+    from .common import callees_of
+
+    T = types_of(repo)
+    rule = repo.cls(RULE, "Rule")
+    aa = rule.methods.get("assert_applies")
+    conv = repo.cls(CONVERTER, "ModuleNameConverter").methods.get("convert")
+    if aa is None or conv is None:
+        raise AnalysisError("Rule.assert_applies / ModuleNameConverter.convert not found")
+    _entry_points(repo)  # the matcher call must exist (raises otherwise)
+    reach = list(reachable_funcs(repo, [aa], byname=False))
+    edges = {f: set(callees_of(repo, f, False)) for f in reach}
+    leads: set = {conv}
+    changed = True
+    while changed:
+        changed = False
+        for f, cs in edges.items():
+            if f not in leads and cs & leads:
+                leads.add(f)
+                changed = True
+    if aa not in leads:
+        res.undecide("C11.R5", f"{aa.relpath}::{aa.qualname}::no-match error propagates", "no call path from Rule.assert_applies to ModuleNameConverter.convert could be resolved", where(aa, aa.node))
+        return
+    sites: dict = {}  # function -> calls that lead on to the conversion
+    for f in sorted(leads - {conv}, key=lambda x: x.fq):
+        if f.module.name.startswith("pytestarch.eval_structure") or isinstance(f.node, ast.Lambda):
+            continue
+        for c in own_nodes(f.node):
+            if isinstance(c, ast.Call):
+                try:
+                    cs, _how = T.callees(f, c, byname_fallback=False)
+                except Exception:  # noqa: BLE001
+                    cs = []
+                if set(cs) & leads:
+                    sites.setdefault(f, []).append(c)
+    n = 0
+    for f, calls in sites.items():
+        fn = Fn(repo, f)
+        for c in calls:
+            n += 1
+            got = _swallowed(repo, fn, c)
+            key = repo.key(f, stmt_of(c)) + f" [{norm(c.func, 60)}: no-match error propagates]"
+            if got is None:
+                res.add("C11.R5", key, True, "an ImpossibleMatch raised below this call leaves the function as an error", where(f, c), kind="dominance")
+                continue
+            node, why = got
+            if isinstance(node, ast.ExceptHandler) and node.body and isinstance(node.body[-1], ast.Return) and node.body[-1].value is not None:
+                callers = [(h, m) for h, ms in sites.items() for m in ms if f in set(T.callees(h, m, byname_fallback=False)[0])]
+                d = _error_as_value(repo, f, node, callers)
+                if d is True:
+                    res.add("C11.R5", key, True, "the ImpossibleMatch is handed to the callers as a value, and every caller raises an error whenever it receives one", where(f, c), kind="dominance")
+                    continue
+                if d is None:
+                    res.undecide("C11.R5", key, f"`{norm(c, 50)}`: {why}, returning `{norm(node.body[-1].value, 50)}` - whether every caller raises an error for it was not recognised", where(f, node))
+                    continue
+                why = f"{why}; {d[1]}"
+            res.add("C11.R5", key, False, f"an ImpossibleMatch raised below `{norm(c, 50)}` does not reach the user: {why} - a regex that matches nothing yields a verdict instead of the no-match error", where(f, node), kind="dominance")
+    res.floor("C11.R5", 3, n)
 
 
 # --------------------------------------------------------------------------------------------------------------- C11.R2
@@ -1793,7 +1988,8 @@ def run(repo: Repo) -> Result:
         "no early exit, and ImpossibleMatch is raised exactly when the set of never-matched patterns is non-empty, before any return; (R3) "
         "have_name_containing stores {ModuleNameRegexFilter(convert_partial_match_to_regex(n)) | n in names}, unfiltered, on every path; (R4) "
         "each of the three public queries stores one graph search per element of the given collections, computed from the graph, its own key "
-        "and whole given collections only, with no state carried between keys, so a batch is the conjunction of the single rules. Together with "
+        "and whole given collections only, with no state carried between keys, so a batch is the conjunction of the single rules; (R5) nothing between "
+        "the conversion and the caller of Rule.assert_applies catches the ImpossibleMatch of an unmatched regex and goes on to a verdict. Together with "
         "purity (C15) identical inputs give identical verdicts."
     )
     res.not_decided = "regexes matching a module and its sub modules (documented caveat); equality of verdicts is argued from identical pipelines, not observed; the translation convert_partial_match_to_regex itself is C08's."
@@ -1802,4 +1998,5 @@ def run(repo: Repo) -> Result:
     run_r2(repo, res)
     run_r3(repo, res)
     run_r4(repo, res)
+    run_r5(repo, res)
     return res
